@@ -268,7 +268,20 @@ def _rest(ctx, eng):
                     if v != want:
                         bad.append('%s is %s' % (field,
                                                  cm.show0(v) if v else '?'))
-            if p.value != ('p', 'frame'):
+            if p.value in (None, T.NONE):
+                # modifies the frame in place and returns nothing: then no
+                # caller may use what it returns
+                import ast
+                used = [c for f2 in m.funcs.values()
+                        for st in ast.walk(f2.node)
+                        if not isinstance(st, ast.Expr)
+                        for c in ast.iter_child_nodes(st)
+                        if isinstance(c, ast.Call) and
+                        isinstance(c.func, ast.Name) and
+                        c.func.id == '_set_frame_priority']
+                if used:
+                    bad.append('returns nothing but its result is used')
+            elif p.value != ('p', 'frame'):
                 bad.append('does not return the frame')
         ctx.ob('FLOW.priority-frame', fset.qual, 'fields and defaults',
                n > 0 and not bad, '; '.join(sorted(set(bad))) or 'ok',
